@@ -204,6 +204,35 @@ def register(R):
             s2.applied_instructions == a.sim.applied_instructions,
             wf(s2)))
     s.ensures("only_this_vehicle", tr_frame, ("C09", "C02", "C15", "C08"))
+    def structure_kept(a, r):
+        # a transition changes counters only: no station or plug type appears / disappears, installed totals stay
+        s_, c_ = bound(StrT, "s_sk"), bound(StrT, "c_sk")
+        st1, st2 = a.sim.stations, r[1].val().stations
+        return Implies(ok(r), forall([s_, c_], And(
+            st2.has(s_) == st1.has(s_),
+            Implies(st1.has(s_), And(st2.get(s_).val().state.has(c_) == st1.get(s_).val().state.has(c_),
+                                     Implies(st1.get(s_).val().state.has(c_),
+                                             st2.get(s_).val().state.get(c_).val().total_chargers == st1.get(s_).val().state.get(c_).val().total_chargers))))))
+    s.ensures("structure_kept", structure_kept, ("C18", "C02"))
+
+    def enters_requested(a, r):
+        # the activity entered is the requested one (up to its instance tag), or ChargingStation for a DispatchStation
+        # whose vehicle is already at the station
+        new = r[1].val().vehicles.get(a.prev_state.vehicle_id).val().vehicle_state
+        nxt = a.next_state
+        parts = []
+        for m in FILE:
+            if m in ("DispatchPoolingTrip", "ServicingPoolingTrip"):
+                parts.append(Implies(nxt.is_a(m), new.is_a(m)))
+                continue
+            same = same_up_to_instance(new, nxt.as_a(m), m)
+            if m == "DispatchStation":
+                d, c = nxt.as_a(m), new.as_a("ChargingStation")
+                same = Or(same, And(new.is_a("ChargingStation"), c.station_id == d.station_id, c.charger_id == d.charger_id,
+                                    c.vehicle_id == d.vehicle_id))
+            parts.append(Implies(nxt.is_a(m), same))
+        return Implies(ok(r), And(*parts))
+    s.ensures("enters_requested_activity", enters_requested, ("C09", "C18"))
     s.ensures("committed_transition_is_visible", lambda a, r: Implies(
         And(ok(r), a.next_state.instance_id != a.prev_state.instance_id),
         r[1].val().vehicles.get(a.prev_state.vehicle_id).val().vehicle_state.instance_id != a.prev_state.instance_id), ("C09",))
